@@ -3,7 +3,7 @@ module holding the property's theorems, and the wording that goes into the evide
 
 # (family, quick_n, thorough_n) ; grids ignore n except for their sampled tails
 PROPS = {
-    "C01": dict(fams=[("encgrid", 0, 0), ("s1", 1500, 60000), ("sm", 800, 30000), ("cs", 900, 30000), ("he", 500, 20000)],
+    "C01": dict(fams=[("encgrid", 0, 0), ("signgrid", 0, 0), ("s1", 1500, 60000), ("sm", 800, 30000), ("cs", 900, 30000), ("he", 500, 20000)],
                 real=[("chain", 140, 6000)]),
     "C02": dict(fams=[("seqgrid", 40, 2000), ("tbsgrid", 0, 0), ("encgrid", 0, 0), ("v1", 2000, 100000), ("vm", 1000, 50000), ("s1", 800, 40000), ("sm", 500, 20000)],
                 real=[("bigprot", 1, 1)]),
